@@ -148,6 +148,8 @@ impl<'a> Tokens<'a>
 				BaseToken::BraceRight => "Expected closing brace.",
 				BaseToken::BracketLeft => "Expected opening bracket.",
 				BaseToken::BracketRight => "Expected closing bracket.",
+				BaseToken::Colon => "Expected colon.",
+				BaseToken::Comma => "Expected comma.",
 				BaseToken::Dot => "Expected dot.",
 				BaseToken::ParenLeft => "Expected opening parenthesis.",
 				BaseToken::ParenRight => "Expected closing parenthesis.",
